@@ -166,9 +166,15 @@ def _simulate_one(args):
         files = sorted(os.listdir(os.path.join(d, "b")))
         if not files:
             return ("error", "TLC simulation produced no behaviours:\n" + out[-3000:])
+        if rc == -9:
+            # killed by the timeout: the file being written is truncated -- inconclusive, never a crash
+            return ("error", "TLC simulation of %s timed out after %ds (%d behaviours written)" % (cfg_name, timeout, len(files)))
         behs = []
         for f in files:
-            behs.append(tlaval.parse_behaviour_file(os.path.join(d, "b", f)))
+            try:
+                behs.append(tlaval.parse_behaviour_file(os.path.join(d, "b", f)))
+            except ValueError as e:
+                return ("error", "behaviour file %s of %s could not be parsed: %s" % (f, cfg_name, e))
         return ("ok", behs)
     finally:
         shutil.rmtree(d, ignore_errors=True)
